@@ -742,3 +742,30 @@ func init() {
 	vpExternals["vpBlockSane"] = func(fr *frame, a []value) value { return fr.i.blockPred("blockSane", unwrap(a[0])) }
 	vpExternals["vpBlockWitnessOK"] = func(fr *frame, a []value) value { return fr.i.blockPred("witnessOK", unwrap(a[0])) }
 }
+
+// VerifyBasicBlockFilter (neutrino/verification.go) checks a GCS filter
+// against the scripts of a block with btcd's matcher; its verdict is
+// modelled by a marker in the model filter payload: a filter whose first
+// payload byte is 0xBA "omits an output script of the block".
+func init() {
+	reg("github.com/lightninglabs/neutrino.VerifyBasicBlockFilter", func(fr *frame, a []value) value {
+		i := fr.i
+		f := ptrArg(a[0])
+		ft := i.namedType("github.com/btcsuite/btcd/btcutil/v2/gcs", "Filter")
+		data := (*f).(structure)[fieldIndex(ft, "filterData")].([]value)
+		i.callLog()["VerifyBasicBlockFilter"]++
+		bad := false
+		if len(data) > 0 {
+			switch b := data[0].(type) {
+			case uint8:
+				bad = b == 0xBA
+			case *Term:
+				bad = i.p.branch(i.p.st().Eq(b, i.p.st().BVConst(0xBA, 8)), "filter validity marker")
+			}
+		}
+		if bad {
+			return tuple{0, i.newError("vp: filter does not match an output script of the block")}
+		}
+		return tuple{0, iface{}}
+	})
+}
